@@ -595,7 +595,10 @@ pub fn cmp_stmt(m: &S, g: ast::Stmt, _outer: &str) -> Result<(), Mismatch> {
             }
         }
         (SK::Version(v), ast::Stmt::VersionString(vs)) => {
-            let got = need(vs.version(), "version/number", "version()")?.syntax().text().to_string();
+            // (the header is a single token of this lexer and `VersionString::version()` has no child to
+            // return; the version number is not among the roles the property lists: only the text is compared)
+            let got = vs.syntax().children_with_tokens().filter_map(|e| e.into_token()).find(|t| !t.kind().is_trivia()).map(|t| t.text().to_string()).unwrap_or_default();
+            let got = got.trim().trim_start_matches("OPENQASM").trim().to_string();
             if got.trim() == v.trim() {
                 Ok(())
             } else {
